@@ -63,6 +63,19 @@ LOWERING_CONFIG_KEYS = {
 }
 
 
+_MAPOVERLAP_NO_CHOICE = (
+    "reviewed, argued by reading (no witness exists): MapOverlap._lower reaches unify_chunks_expr only through the boundary helpers "
+    "(periodic / reflect / nearest / constant -> concatenate([slab, x, slab], axis)), whose slabs are slices of x itself or full_like(x, chunks=x's own "
+    "chunks with the axis replaced), so every non-concatenated axis already has one common chunking and the policy has nothing to decide; "
+    "the inputs of a multi-input map_overlap are unified at construction (map_overlap), i.e. in the operands the name covers"
+)
+# (configuration key, lowering root) pairs reviewed one by one
+LOWERING_CONFIG_ROOTS = {
+    ("array.unify-chunks-policy", "MapOverlap._lower"): _MAPOVERLAP_NO_CHOICE,
+    ("array.unify-chunks-limit", "MapOverlap._lower"): _MAPOVERLAP_NO_CHOICE,
+}
+
+
 def is_hook(f: FuncInfo):
     if f.cls is None and f.parent is None:
         return f.name in ("_lower", "_materialize", "_remove_conflicting_exprs", "_symbolic_mapping", "optimize_blockwise_fusion", "unify_chunks_expr")
@@ -441,6 +454,69 @@ def r09_5(ctx):
     return rr
 
 
+def _name_members(repo, c):
+    """Members of class ``c`` (properties, cached properties, methods) that its resolved ``_name`` reaches through
+    ``self.<member>`` references (``deterministic_token`` stands for the resolved ``__dask_tokenize__``), to depth 4."""
+    out, frontier = set(), ["_name"]
+    for _ in range(4):
+        nxt = []
+        for m in frontier:
+            hit = repo.class_attr(c, "__dask_tokenize__" if m == "deterministic_token" else m)
+            if not hit or not isinstance(hit[1], FuncInfo):
+                continue
+            fn = hit[1].node
+            # the tokenization sites that produce the node's token: ``self._determ_token = <tokenize>(...)`` or a returned one
+            toks = [
+                n.value for n in body_walk(fn)
+                if isinstance(n, (ast.Assign, ast.Return)) and isinstance(n.value, ast.Call) and (dotted(n.value.func) or "").rsplit(".", 1)[-1] in ("_tokenize_deterministic", "tokenize")
+                and (isinstance(n, ast.Return) or any(unparse(t) == "self._determ_token" for t in n.targets))
+            ]
+
+            def self_attrs(node):
+                return {n.attr for n in ast.walk(node) if isinstance(n, ast.Attribute) and isinstance(n.value, ast.Name) and n.value.id == "self"}
+
+            if toks:
+                # a tokenizer with several tokenization sites (a fast path and a fallback): only what EVERY site hashes counts
+                found = set.intersection(*[self_attrs(t) for t in toks])
+            else:
+                found = self_attrs(fn)
+            for a in sorted(found):
+                if a not in out:
+                    out.add(a)
+                    nxt.append(a)
+        frontier = nxt
+    return out
+
+
+def _covered_by_name(ctx, key, roots):
+    """Is configuration ``key``, read on lowering paths from ``roots``, decided under a per-node capture that the
+    node's own name includes?  (True, explanation) only when, for every root: the key is never read live on a resolved
+    path (it is filled from ``self.<cached property>`` at the call), and for every expression class that lowers through
+    this root the capturing cached property is reached by the class's ``_name`` / tokenizer."""
+    repo = ctx.repo
+    hows = []
+    for r in roots:
+        live, pinned = ctx.cached(("live-config", r.fq), lambda r=r: live_config_reads(ctx, r))
+        if key in live or key not in pinned:
+            return False, f"read live on a path from {r.qualname}"
+        classes = [d for d in repo.expr_classes() if (repo.class_attr(d, "_lower") or (None, None))[1] is r]
+        if not classes:
+            return False, f"no class lowers through {r.qualname}"
+        for d in classes:
+            caps = []
+            for c_ in repo.mro(d):
+                if isinstance(c_, str):
+                    continue
+                for mname, m in c_.methods.items():
+                    if m.kind == "cached_property" and any(k == key for _n, k in _config_reads(m)) and (repo.class_attr(d, mname) or (None, None))[1] is m:
+                        caps.append(mname)
+            reached = _name_members(repo, d)
+            if not caps or not all(c_ in reached for c_ in caps):
+                return False, f"{d.name}: the captured setting ({', '.join(caps) or 'no per-node capture'}) is not part of the node's token"
+            hows.append(f"{d.name}.{caps[0]}")
+    return True, "captured per node and included in the token: " + ", ".join(sorted(set(hows))[:6])
+
+
 def lowering_config_rule(ctx, rule_id="R09.6"):
     rr = RuleResult(rule_id, "REF", "configuration keys readable on paths from lowering (memoised by name process-wide) are the frozen, reviewed set", min_instances=1)
     repo = ctx.repo
@@ -488,10 +564,24 @@ def lowering_config_rule(ctx, rule_id="R09.6"):
         rr.inst(cst, read_in=f.construct, roots=sorted({x[0].qualname for x in lst})[:8], shortest_path=path)
         if key in LOWERING_CONFIG_KEYS:
             rr.exempt(cst, LOWERING_CONFIG_KEYS[key])
-        else:
+            continue
+        # judged per lowering root: the same key may be covered by the name of one kind of node and not of another
+        by_root = {}
+        for x in lst:
+            if x[0].fq not in by_root or len(x[3]) < len(by_root[x[0].fq][3]):
+                by_root[x[0].fq] = x
+        for r, f, node, path in sorted(by_root.values(), key=lambda x: x[0].qualname):
+            c_r = f"{cst}::{r.qualname}"
+            covered, how = _covered_by_name(ctx, key, [r])
+            rr.inst(c_r, read_in=f.construct, path=path, covered_by_node_name=covered, how=how)
+            if covered:
+                continue  # decided under a per-node capture that the node's own token includes: another setting, another name
+            if (key, r.qualname) in LOWERING_CONFIG_ROOTS:
+                rr.exempt(c_r, LOWERING_CONFIG_ROOTS[(key, r.qualname)])
+                continue
             ctx.finding(
-                rr, cst,
-                f"configuration {key!r} is read in {f.qualname}, reachable from {r.qualname}: lowering results are memoised by node name across the whole process "
+                rr, c_r,
+                f"configuration {key!r} is read in {f.qualname}, reachable from {r.qualname} ({how}): lowering results are memoised by node name across the whole process "
                 f"(_LOWER_CACHE), so a lowering computed under one setting is served to the same program built under another - optimized graph keys then depend on history",
                 func=f, node=node, path=path,
             )
